@@ -199,7 +199,7 @@ Definition unescape_step (f : nat) (c : N) (r : text) : option text :=
         match r2 with
         | b :: r3 =>
           if b =? 123 then
-            match unescape_u r3 8 0 with
+            match unescape_u r3 7 0 with
             | Some (cp, r4) => match unescape f r4 with Some s => Some (cp :: s) | None => None end
             | None => None
             end
@@ -266,7 +266,7 @@ Proof.
   destruct (e =? 117); [|discriminate].
   destruct r2 as [|b r3]; [discriminate|]. inversion Hr2; subst.
   destruct (b =? 123); [|discriminate].
-  destruct (unescape_u r3 8 0) as [[cp r4]|] eqn:Eu; [|discriminate].
+  destruct (unescape_u r3 7 0) as [[cp r4]|] eqn:Eu; [|discriminate].
   destruct (unescape_u_scalar _ _ _ _ _ ltac:(eassumption) Eu) as [Hcp Hr4].
   destruct (unescape f r4) eqn:E1; [|discriminate]. inversion E; subst.
   constructor; [assumption|eapply IH; eassumption].
